@@ -35,6 +35,9 @@ Qed.
 Lemma ret_ok {A} (a b : A) s s' : ret a s = Ok (b, s') -> a = b /\ s = s'.
 Proof. unfold ret. intros H. inversion H. auto. Qed.
 
+Lemma chk_ok (b : bool) s u s' : (if b then fail ValueError else ret tt) s = Ok (u, s') -> s' = s /\ b = false.
+Proof. destruct b; [discriminate|]. intros H. apply ret_ok in H as [_ <-]. auto. Qed.
+
 Ltac inv_bind H :=
   let a := fresh "a" in let s1 := fresh "s" in let H1 := fresh "Hm" in let H2 := fresh "Hk" in
   apply bind_ok in H as (a & s1 & H1 & H2).
@@ -197,12 +200,13 @@ Fixpoint yields (it : item) : bool :=
   | _ => false
   end.
 
-(* no orthologGroup anywhere inside is empty *)
+(* no orthologGroup and no paralogGroup anywhere inside is empty *)
 Fixpoint item_ok (it : item) : Prop :=
   match it with
   | IOG _ _ body => existsb yields body = true /\
                     (fix all (l : list item) : Prop := match l with [] => True | x :: r => item_ok x /\ all r end) body
-  | IPG _ body => (fix all (l : list item) : Prop := match l with [] => True | x :: r => item_ok x /\ all r end) body
+  | IPG _ body => existsb yields body = true /\
+                  (fix all (l : list item) : Prop := match l with [] => True | x :: r => item_ok x /\ all r end) body
   | _ => True
   end.
 
@@ -274,10 +278,14 @@ Proof.
       exists [(pg, h)]. split; [reflexivity|]. split; [|split; [exact D0|split; [exact Hok|discriminate]]].
       unfold kgenes at 1. simpl. rewrite app_nil_r. rewrite G0 in Hp. eapply Permutation_trans; eauto.
   - (* paralogGroup *)
-    cbn [eval_item] in H. inv_bind_as H k t1 Ek K1. inv_bind_as K1 fr1 t2 Ebody K2. inv_bind_as K2 u3 t3 E3 K3.
-    apply ret_ok in K3 as [<- _].
+    cbn [eval_item] in H. inv_bind_as H k t1 Ek K1. inv_bind_as K1 fr1 t2 Ebody K2. inv_bind_as K2 uc tc Ec Kc.
+    inv_bind_as Kc u3 t3 E3 K3. apply ret_ok in K3 as [<- _].
     destruct (body_spec t genes (Some k) body fr t1 fr1 t2 IH Ebody) as (n0 & G0 & P0 & D0 & O0 & Y0).
-    exists n0. split; auto. split; auto. split; auto. split; [apply item_ok_all; exact O0|exact Y0].
+    assert (Hy : existsb yields body = true).
+    { destruct (existsb yields body) eqn:Ey; [reflexivity|]. exfalso. rewrite (Y0 eq_refl) in G0. unfold grows in G0.
+      rewrite app_nil_r in G0. rewrite G0, Nat.eqb_refl in Ec. discriminate. }
+    exists n0. split; auto. split; auto. split; auto. split; [cbn [item_ok]; split; [exact Hy|apply item_ok_all; exact O0]|].
+    cbn [yields]. intros E. congruence.
   - cbn [eval_item] in H. apply ret_ok in H as [<- _]. exists []. unfold grows. simpl. rewrite app_nil_r.
     repeat split; auto. contradiction.
   - cbn [eval_item] in H. apply ret_ok in H as [<- _]. exists []. unfold grows. simpl. rewrite app_nil_r.
